@@ -31,12 +31,24 @@ def make_chunks(seed, k, n):
     out = []
     for j in range(n):
         rng = random.Random(f'{seed}:c13:{k}:{j}')
-        fam = rng.choice(['split', 'chain', 'synth', 'multi'])
+        fam = rng.choice(['split', 'split', 'chain', 'synth', 'multi'])
         rows, prms, _ = pipecheck.gen_scene(seed, 1000 * k + j, fam)
         prms = dict(prms)
         prms.setdefault('MAX_HITS_OKTA0', rng.choice([0, 1, 2, 3, 4]))
         prms.setdefault('MSA', rng.choice([None, 3000 + 1000 * j, 20000]))
         prms.setdefault('BASE_LVL_HEIGHT_PERC', rng.choice([0, 5, 10 + 10 * j]))
+        # distinct values at every depth of the parameter tree (depth-3 leaves included)
+        lay = dict(prms.get('LAYERING_PRMS', {}))
+        kw = dict(lay.get('gmm_kwargs', {}))
+        kw.setdefault('delta_mul_gain', [0.95, 0.5, 1.0][j % 3])
+        kw.setdefault('rescale_0_to_x', [100, 10, None][j % 3])
+        lay['gmm_kwargs'] = kw
+        lay.setdefault('min_okta_to_split', [2, 0, 1][j % 3])
+        prms['LAYERING_PRMS'] = lay
+        sli = dict(prms.get('SLICING_PRMS', {}))
+        sli.setdefault('height_scale_kwargs', {'min_range': [1000, 200, 5000][j % 3]})
+        prms['SLICING_PRMS'] = sli
+        prms.setdefault('LOWESS', {'frac': [0.35, 0.6, 0.2][j % 3]})
         out.append((rows, prms))
     return out
 
